@@ -97,6 +97,23 @@ func (s *state) scanKeyValue(data []byte, el *fix.KeyValue) error {
 	return nil
 }
 
+// fieldIndex returns the offset at which the field with the specified key starts, that is
+// at the very beginning of data or right after a delimiter (the same place scanKeyValue reads
+// the value from). It returns -1 if there is no such field.
+func fieldIndex(data []byte, key string) int {
+	q := append([]byte(key), '=')
+	if bytes.HasPrefix(data, q) {
+		return 0
+	}
+
+	index := bytes.Index(data, append([]byte{fix.Delimiter[0]}, q...))
+	if index == -1 {
+		return -1
+	}
+
+	return index + 1
+}
+
 // splitGroup splits message parts which are recognized to be separate groups
 // to create individual group items. The function distinguishes repeated parts and detects
 // identical tags without repeating key-value groups.
@@ -135,7 +152,7 @@ func (s *state) unmarshal(data []byte, fixItem fix.Item) error {
 		}
 
 		cnt := noKv.Value.Value().(int)
-		startNoTag := bytes.Index(data, append([]byte(noKv.Key), '='))
+		startNoTag := fieldIndex(data, noKv.Key)
 		if startNoTag == -1 {
 			return nil
 		}
